@@ -29,6 +29,8 @@ import re as _re
 SAFE_METHODS[_re.Match] = ('group', 'groups', 'start', 'end', 'span', 'groupdict')
 SAFE_METHODS[_re.Pattern] = ('fullmatch', 'match', 'search', 'split', 'findall', 'sub')
 SAFE_METHODS[_io.StringIO] = ('write', 'getvalue', 'close')
+import collections as _collections
+SAFE_METHODS[_collections.deque] = ('append', 'appendleft', 'pop', 'popleft', 'extend', 'clear', 'copy', 'count', 'remove', 'reverse')
 RE_FUNCTIONS = ('fullmatch', 'match', 'search', 'split', 'findall', 'sub', 'compile', 'escape')
 # the part of the exception hierarchy the models meet
 EXC_PARENTS = {'KeyError': 'LookupError', 'IndexError': 'LookupError', 'LookupError': 'Exception', 'ZeroDivisionError': 'ArithmeticError', 'ArithmeticError': 'Exception',
@@ -488,7 +490,7 @@ class Interp:
             raise Unsupported('iteration over an unresolved name ' + str(v[1] if v[0] == '$name' else v[2]))
         if self.set_order is not None and isinstance(v, (set, frozenset)):
             return sorted(v, key=repr, reverse=(self.set_order == 'desc'))
-        if isinstance(v, (list, tuple, set, frozenset, dict, str, range)) or hasattr(v, '__next__') or type(v).__name__ in ('dict_items', 'dict_keys', 'dict_values', 'enumerate', 'zip', 'reversed', 'count', 'GenProxy'):
+        if isinstance(v, (list, tuple, set, frozenset, dict, str, range, _collections.deque)) or hasattr(v, '__next__') or type(v).__name__ in ('dict_items', 'dict_keys', 'dict_values', 'enumerate', 'zip', 'reversed', 'count', 'GenProxy'):
             return v
         raise Unsupported('iteration over ' + type(v).__name__)
 
@@ -627,7 +629,14 @@ class Interp:
                 right = self.ev(f, c, env)
                 t = type(op)
                 try:
-                    if t is ast.Eq:
+                    if t in (ast.Lt, ast.Gt, ast.LtE, ast.GtE) and (isinstance(left, Obj) or isinstance(right, Obj)):
+                        if t is ast.Lt:
+                            r = self.objless(left, right)
+                        elif t is ast.Gt:
+                            r = self.objless(right, left)
+                        else:
+                            raise Unsupported('<= / >= between modelled objects')
+                    elif t is ast.Eq:
                         r = left == right
                     elif t is ast.NotEq:
                         r = left != right
@@ -682,6 +691,11 @@ class Interp:
                 return ('$method', base, e.attr)
             if isinstance(base, tuple) and base and base[0] == '$super':
                 return ('$supermethod', base[1], base[2], e.attr)
+            if base is None:
+                # certain: Python raises here whatever the evaluator models
+                ex0 = Raised('AttributeError', "'NoneType' object has no attribute '{}'".format(e.attr))
+                ex0.certain = True
+                raise ex0
             if isinstance(base, ExcVal) and e.attr == 'args':
                 return (base.msg,) if base.msg is not None else ()
             if isinstance(base, tuple) and base and base[0] == '$name':
@@ -696,7 +710,7 @@ class Interp:
         if isinstance(e, ast.JoinedStr):
             out = ''
             for v in e.values:
-                out += str(self.ev(f, v.value, env)) if isinstance(v, ast.FormattedValue) else str(v.value)
+                out += str(self.objstr(self.ev(f, v.value, env))) if isinstance(v, ast.FormattedValue) else str(v.value)
             return out
         if isinstance(e, ast.Lambda):
             fn = ast.FunctionDef(name='<lambda>', args=e.args, body=[ast.Return(value=e.body)], decorator_list=[], returns=None, type_comment=None)
@@ -755,6 +769,23 @@ class Interp:
                 for v0 in list(args) + list(kwargs.values()):
                     if isinstance(v0, tuple) and v0 and v0[0] in ('$method', '$name'):
                         raise Unsupported('function value handed to a builtin')
+                if fn is str and len(args) == 1 and not kwargs and isinstance(args[0], Obj):
+                    return self.objstr(args[0])
+                if fn in (sorted, min, max) and len(args) == 1 and 'key' not in kwargs:
+                    xs0 = list(self.iterate(args[0]))
+                    if any(isinstance(x0, Obj) for x0 in xs0):
+                        import functools
+                        it0 = self
+
+                        def cmp0(a0, b0):
+                            if it0.objless(a0, b0):
+                                return -1
+                            if it0.objless(b0, a0):
+                                return 1
+                            return 0
+                        kwargs = dict(kwargs)
+                        kwargs['key'] = functools.cmp_to_key(cmp0)
+                        args = [xs0]
                 return fn(*args, **kwargs)
             except (ValueError, TypeError, StopIteration) as ex:
                 raise Raised(type(ex).__name__)
@@ -787,6 +818,9 @@ class Interp:
                 if isinstance(base, ty) and name in names:
                     if isinstance(base, str) and name == 'join':
                         args = [list(self.iterate(args[0]))]
+                    if isinstance(base, str) and name == 'format':
+                        args = [self.objstr(a0) for a0 in args]
+                        kwargs = {k0: self.objstr(a0) for k0, a0 in kwargs.items()}
                     try:
                         r = getattr(base, name)(*args, **kwargs)
                     except KeyError:
@@ -802,6 +836,12 @@ class Interp:
             short = name.split('.')[-1]
             if name in self.stubs or short in self.stubs:
                 return (self.stubs.get(name) or self.stubs[short])(self, args, kwargs)
+            if short in self.classes and self.classes[short] == 'real':
+                # the rule asks for the class as the analysed tree defines it (its __init__ is evaluated)
+                for c0 in self.ctx.prog.classes.values():
+                    if c0.name == short and not c0.module.name.startswith('template:'):
+                        return self.instantiate(c0, args, kwargs)
+                raise Unsupported('class {} not found'.format(short))
             if short in self.classes:
                 return self.classes[short](*args, **kwargs)
             if short in CASTS and len(args) == 1 and not kwargs:
@@ -837,7 +877,7 @@ class Interp:
                 return isinstance(args[0], pyts)
             if short in ('print', 'log'):
                 if short == 'print' and getattr(self, 'printed', None) is not None:
-                    self.printed.append(kwargs.get('sep', ' ').join(str(a) for a in args))
+                    self.printed.append(kwargs.get('sep', ' ').join(str(self.objstr(a)) for a in args))
                 return None
             if name.startswith('re.') and short in RE_FUNCTIONS and f.module.imports.get('re', (None, None))[1] == 're':
                 for v0 in list(args) + list(kwargs.values()):
@@ -849,6 +889,8 @@ class Interp:
                     raise Raised('error')
                 except TypeError:
                     raise Raised('TypeError')
+            if name in ('collections.deque', 'deque') and len(args) <= 1 and not kwargs and (name != 'deque' or f.module.imports.get('deque') == ('symbol', 'collections', 'deque')):
+                return _collections.deque(list(self.iterate(args[0]))) if args else _collections.deque()
             if name in ('io.StringIO', 'StringIO') and not args and not kwargs:
                 return _io.StringIO()
             if short == 'defaultdict' and len(args) <= 1 and not kwargs:
@@ -935,6 +977,37 @@ class Interp:
 
     def _raise(self, name):
         raise Raised(name)
+
+    # -- special methods of modelled classes -------------------------------------------------------------------------------
+    def _dunder(self, o, name):
+        """the method `name` the analysed tree defines for the class of the modelled object o (own or inherited), or None"""
+        key = '{}.{}'.format(o._cls, name)
+        if key in self.stubs:
+            return self.stubs[key]
+        for c in self.ctx.prog.classes.values():
+            if c.name == o._cls and not c.module.name.startswith('template:'):
+                m0 = self.ctx.prog.find_method(c, name)
+                if m0 is not None:
+                    return m0
+        return None
+
+    def objstr(self, v):
+        """str(v) as Python would compute it: through the __str__ the tree defines for a modelled object"""
+        if isinstance(v, Obj):
+            m0 = self._dunder(v, '__str__')
+            if m0 is None:
+                return repr(v)
+            r0 = m0(self, [v], {}) if callable(m0) else self.call(m0, [v], {})
+            if not isinstance(r0, str):
+                raise Raised('TypeError')
+            return r0
+        return v
+
+    def objless(self, a, b):
+        m0 = self._dunder(a, '__lt__') if isinstance(a, Obj) else None
+        if m0 is None:
+            raise Raised('TypeError')
+        return self.truth(m0(self, [a, b], {}) if callable(m0) else self.call(m0, [a, b], {}))
 
     # -- classes of the analysed tree (only with real_classes = True) ----------------------------------------------------
     def instantiate(self, c, args, kwargs):
